@@ -58,7 +58,12 @@ impl fmt::Debug for FsWatcherBuilder {
     }
 }
 
-fn id_of_path(id_builder: &mut IdBuilder, root: &Path, path: &Path) -> Option<OwnedDirEntry> {
+fn id_of_path(
+    id_builder: &mut IdBuilder,
+    root: &Path,
+    path: &Path,
+    is_dir: Option<bool>,
+) -> Option<OwnedDirEntry> {
     id_builder.reset();
 
     // The root directory itself has the empty id.
@@ -79,7 +84,8 @@ fn id_of_path(id_builder: &mut IdBuilder, root: &Path, path: &Path) -> Option<Ow
     id_builder.push(path.file_stem()?.to_str()?)?;
     let id = id_builder.join();
 
-    let entry = if path.is_dir() {
+    // A removed entry cannot be asked for its kind, so trust the event
+    let entry = if is_dir.unwrap_or_else(|| path.is_dir()) {
         OwnedDirEntry::Directory(id)
     } else {
         let ext = crate::utils::extension_of(path)?.into();
@@ -91,7 +97,7 @@ fn id_of_path(id_builder: &mut IdBuilder, root: &Path, path: &Path) -> Option<Ow
 
 #[cfg(assets_manager_verif)]
 pub(super) fn verif_id_of_path(root: &Path, path: &Path) -> Option<OwnedDirEntry> {
-    id_of_path(&mut IdBuilder::default(), root, path)
+    id_of_path(&mut IdBuilder::default(), root, path, None)
 }
 
 enum EventHandlerPayload<H> {
@@ -143,16 +149,30 @@ impl notify::EventHandler for NotifyEventHandler {
                             None => vec![&*path],
                         },
                         notify::EventKind::Any | notify::EventKind::Modify(_) => vec![&*path],
+                        // The removed entry has to be named too: an asset with
+                        // several extensions falls back to another file
                         notify::EventKind::Remove(_) => match path.parent() {
-                            Some(parent) => vec![parent],
-                            None => vec![],
+                            Some(parent) => vec![&path, parent],
+                            None => vec![&*path],
                         },
                         notify::EventKind::Access(_) | notify::EventKind::Other => return,
+                    };
+                    let removed_is_dir = match event.kind {
+                        notify::EventKind::Remove(notify::event::RemoveKind::Folder) => Some(true),
+                        notify::EventKind::Remove(notify::event::RemoveKind::File) => Some(false),
+                        _ => None,
                     };
                     let ids = paths
                         .into_iter()
                         .flat_map(|p| self.roots.iter().map(move |r| (p, r)))
-                        .filter_map(|(path, root)| id_of_path(&mut self.id_builder, root, path));
+                        .filter_map(|(p, root)| {
+                            let is_dir = if std::ptr::eq(p, &*path) {
+                                removed_is_dir
+                            } else {
+                                None
+                            };
+                            id_of_path(&mut self.id_builder, root, p, is_dir)
+                        });
 
                     if self.events.send_multiple(ids).is_err() {
                         drop(self.watcher.take());
